@@ -28,6 +28,8 @@ Families
                simulate, ul(), .underlier, underliers(), every buffer, time_to_maturity, moneyness, payoff,
                features (bound before and after the swap) and the hedger are on the grid of the CURRENT stock;
                the replaced stocks are not touched.
+  forward_start EuropeanForwardStartOption on integer and non-integer M/dt x start times on and between grid
+               times: payoff == max(S[-1]/S[floor(start/dt)] - K, 0) on the simulated buffer.
 """
 from __future__ import annotations
 
@@ -291,10 +293,17 @@ def grid_use(ctx, block):
         if tuple(pay.shape) != (n_paths,):
             ctx.violation(type(d).__name__ + ".payoff", "shape", f"payoff shape {tuple(pay.shape)}",
                           observed=list(pay.shape), expected=[n_paths], block=mini)
-        for name in _features_for(kind, route):
-            if name == "prev_hedge":
-                continue
-            f = get_feature(name).of(d)
+        # list the derivative with a trivial pricer so that the "spot" feature (price of the derivative) exists
+        d.list(lambda dd: dd.ul().spot * 0.5)
+        feats = [(n, get_feature(n)) for n in _features_for(kind, route) + ["spot"] if n != "prev_hedge"]
+        try:
+            from pfhedge.features.features import Ones
+            feats.append(("ones", Ones()))
+        except ImportError:
+            pass
+        eps = torch.finfo(dtype).eps
+        for name, feat in feats:
+            f = feat.of(d)
             g = f.get(None)
             ctx.tick(1, nontrivial=1)
             if tuple(g.shape) != (n_paths, T, 1):
@@ -302,12 +311,35 @@ def grid_use(ctx, block):
                               f"T={T}", observed=list(g.shape), expected=[n_paths, T, 1], block=mini)
                 continue
             if T <= 13 or block.get("all_indices"):
-                for i in range(T):
-                    gi = f.get(i)
-                    ctx.tick(1)
+                # every step index the method accepts: [-T, T); the running-maximum features take the prefix
+                # [: i + 1], which is empty for i = -1 (IndexError on the unchanged tree as well): [-T, -1) there
+                lo = -T
+                idx = [i for i in range(lo, T) if not (name.startswith("max_") and i == -1)]
+                for i in idx:
+                    try:
+                        gi = f.get(i)
+                    except Exception as e:
+                        ctx.violation(f"features.{name}", f"step_raises:{type(e).__name__}" + ("_negative_index" if i < 0 else ""),
+                                      f"{name}.get({i}) on a grid of T={T}: {type(e).__name__}: {str(e)[:160]}",
+                                      observed=repr(e)[:200], expected=[n_paths, 1, 1], block=mini)
+                        break
+                    ctx.tick(1, nontrivial=1 if i < 0 else 0)
+                    neg = "_negative_index" if i < 0 else ""
                     if tuple(gi.shape) != (n_paths, 1, 1):
-                        ctx.violation(f"features.{name}", "shape_step", f"{name}.get({i}) shape {tuple(gi.shape)}",
-                                      observed=list(gi.shape), expected=[n_paths, 1, 1], block=mini)
+                        ctx.violation(f"features.{name}", "shape_step" + neg, f"{name}.get({i}) shape {tuple(gi.shape)} on a "
+                                      f"grid of T={T}", observed=list(gi.shape), expected=[n_paths, 1, 1], block=mini)
+                        break
+                    if name == "empty":
+                        continue
+                    col = g[:, [i]]
+                    if name in TIME_FEATURES:   # get(i) and get(None) round differently: same tolerance as the ttm family
+                        same = bool(((gi - col).abs() <= 3 * eps * (T - 1) * dt).all())
+                    else:
+                        same = _same(gi, col)
+                    if not same:
+                        ctx.violation(f"features.{name}", "step_vs_all" + neg, f"{name}.get({i}) = {gi.flatten().tolist()} is not "
+                                      f"column {i} of {name}.get(None) = {col.flatten().tolist()} (T={T})",
+                                      observed=gi.flatten().tolist(), expected=col.flatten().tolist(), block=mini)
                         break
         models = [("naked", Naked(1), ["zeros"]), ("naked_prev", Naked(1), ["zeros", "prev_hedge"])]
         if route in market.OPTION_KINDS and kind in ("brownian", "heston") and not (block.get("light") and kind == "heston"):
@@ -319,6 +351,22 @@ def grid_use(ctx, block):
                 h = hedger.compute_hedge(d)
                 pl = hedger.compute_pl(d)
             ctx.tick(2, nontrivial=2)
+            if "prev_hedge" not in inputs:
+                for i in (-1, 0, T - 1):
+                    if i == -1 and any(str(x).startswith("max_") for x in inputs):
+                        continue    # running-maximum features do not accept -1 (see above)
+                    try:
+                        gi = hedger.get_input(d, i)
+                        good = tuple(gi.shape) == (n_paths, 1, len(inputs))
+                        obs = list(gi.shape)
+                    except Exception as e:
+                        good, obs = False, repr(e)[:200]
+                    ctx.tick(1)
+                    if not good:
+                        ctx.violation("Hedger.get_input", f"step_{mname}" + ("_negative_index" if i < 0 else ""),
+                                      f"Hedger.get_input(derivative, {i}) with inputs {list(map(str, inputs))} on a grid of "
+                                      f"T={T}: {obs}", observed=obs, expected=[n_paths, 1, len(inputs)], block=mini)
+                        break
             if tuple(h.shape) != (n_paths, 1, T):
                 ctx.violation("Hedger.compute_hedge", f"shape_{mname}", f"hedge shape {tuple(h.shape)}, buffers have T={T}",
                               observed=list(h.shape), expected=[n_paths, 1, T], block=mini)
@@ -828,6 +876,71 @@ def swap(ctx, block):
 
 
 # ----------------------------------------------------------------------------
+# forward start: the strike is fixed at the grid index of the start time
+# ----------------------------------------------------------------------------
+
+def start_index(start, dt):
+    """floor(start/dt) in exact arithmetic on the floats; a quotient within 4 ulp of k counts as k."""
+    import math
+    q = Fraction(start) / Fraction(dt)
+    k = math.floor(q + Fraction(1, 2))
+    if k >= 1 and abs(q - k) <= 4 * R.EPS * k:
+        return k
+    return math.floor(q)
+
+
+@family
+def forward_start(ctx, block):
+    import pfhedge.instruments as I
+    dtype = DT[block["dtype"]]
+    eps = torch.finfo(dtype).eps
+    n_paths = block["n_paths"]
+    torch.manual_seed(0)
+    for (M, dt, form, k, start, sform) in block["cases"]:
+        T = R.expected_points(M, dt)[0]
+        idx = start_index(start, dt)
+        mini = dict(block, cases=[[M, dt, form, k, start, sform]])
+        p = market.primary(block["primary"], dtype=dtype, dt=dt, **({"sigma": 0.5} if block["primary"] == "brownian" else {}))
+        d = I.EuropeanForwardStartOption(p, strike=block["strike"], maturity=M, start=start)
+        d.simulate(n_paths=n_paths)
+        S = p.spot
+        ctx.tick(1, nontrivial=1 if (form != "k*dt" and sform != "on_grid") else 0)
+        if tuple(S.shape) != (n_paths, T):
+            continue    # grid_steps' business
+        pay = d.payoff()
+        exp = torch.relu(S[:, -1] / S[:, idx] - block["strike"])
+        ctx.outcome(("fs", T, idx))
+        if tuple(pay.shape) != (n_paths,) or not bool(((pay - exp).abs() <= 4 * eps * (exp.abs() + 1)).all()):
+            # which grid index does the observed payoff correspond to?
+            used = [j for j in range(T) if tuple(pay.shape) == (n_paths,) and
+                    bool(((pay - torch.relu(S[:, -1] / S[:, j] - block["strike"])).abs() <= 4 * eps * (exp.abs() + 1)).all())]
+            off = (used[0] - idx) if len(used) == 1 else None
+            c = f"strike_fixed_{off:+d}_steps_from_floor_start_over_dt" if off is not None else "payoff_not_on_grid"
+            c += "_integer_ratio" if R.expected_points(M, dt)[1] == "integer" else "_noninteger_ratio"
+            ctx.violation("EuropeanForwardStartOption.payoff", c,
+                          f"EuropeanForwardStartOption(dt={dt!r}, maturity={M!r} [{form}, k={k}], start={start!r} [{sform}], "
+                          f"strike={block['strike']}): grid of T={T} points, start/dt = {float(Fraction(start) / Fraction(dt))!r} so the "
+                          f"strike is fixed at index {idx}; payoff {pay.tolist()} != max(S[-1]/S[{idx}] - K, 0) = {exp.tolist()}"
+                          + (f" (it equals the payoff for index {used[0]})" if len(used) == 1 else ""),
+                          observed=pay.tolist(), expected=exp.tolist(), block=mini)
+
+
+def forward_start_cases(pairs, jmax):
+    out = []
+    for (M, dt, form, k) in pairs:
+        if form not in ("k*dt", "(k-1/2)*dt"):
+            continue
+        seen = set()
+        for j in range(0, min(k, jmax + 1)):
+            for sform, st in (("on_grid", j * dt), ("between_0.3", (j + 0.3) * dt), ("between_0.7", (j + 0.7) * dt)):
+                if st >= M or st in seen:
+                    continue
+                seen.add(st)
+                out.append([M, dt, form, k, st, sform])
+    return out
+
+
+# ----------------------------------------------------------------------------
 
 def _chunks(cases, n):
     return [cases[i:i + n] for i in range(0, len(cases), n)]
@@ -854,7 +967,10 @@ def run(ctx):
              "not exactly k (thorough: also every k <= 3000) x forms k*dt, k/den, literal.  local_vol: 3 sigma_fn x routes x "
              "dtype x the k <= 5 (12) pairs; every call time of sigma_fn recorded.  swap: every operation sequence of length "
              "<= 3 (4) over {simulate(2), simulate(3), underlier = A|B|C} that ends with a simulate and contains a swap, x 6 "
-             "derivative classes x 2 stock triples; non-trivial = simulations after a swap")
+             "derivative classes x 2 stock triples; non-trivial = simulations after a swap.  grid_use also: get(i) for every i in "
+             "[-T, T) (running-maximum features: without i = -1) has shape (N,1,1) and equals column i of get(None); "
+             "Hedger.get_input(d, -1|0|T-1).  forward_start: (k*dt, (k-1/2)*dt maturities, k <= Ksmall) x starts j*dt, (j+0.3)*dt, "
+             "(j+0.7)*dt; non-trivial = non-integer M/dt with a start between grid times")
     ctx.assume("expected number of points computed with exact Fractions on the float arguments; 'integer' = within "
                "4*2^-52*k of k; no enumerated pair lies between that and 1e-6 of an integer (asserted)")
     ctx.assume("the number of steps does not depend on the random draws (seed fixed, values unused)")
@@ -1004,8 +1120,18 @@ def run(ctx):
                 blocks.append(("swap", {"route": route, "M": M, "dts": list(dts3), "kindB": kindB, "dtype": "float64",
                                         "histories": ch}))
 
+    # forward start: strike fixed at floor(start/dt) also when the grid overshoots the maturity
+    fs_cases = forward_start_cases(small_pairs if ctx.quick else [c for c in all_pairs if c[3] <= 40], ctx.pick(4, 12))
+    ctx.add("forward_start_cases", len(fs_cases))
+    for prim, dtype, strike in (("brownian", "float64", 1.0), ("brownian", "float32", 0.875), ("merton", "float64", 1.0)):
+        if ctx.quick and prim != "brownian":
+            continue
+        for ch in _chunks(fs_cases, 400):
+            blocks.append(("forward_start", {"primary": prim, "dtype": dtype, "strike": strike, "n_paths": 3, "cases": ch}))
+
     if ctx.thorough:
-        for name in ("grid_steps", "ttm", "grid_use", "cross_dt", "resimulate", "long_grid", "local_vol", "swap"):
+        for name in ("grid_steps", "ttm", "grid_use", "cross_dt", "resimulate", "long_grid", "local_vol", "swap",
+                     "forward_start"):
             ctx.run_parallel(name, [b for n, b in blocks if n == name])
     else:
         for name, b in blocks:
